@@ -10,9 +10,11 @@ import Model.Rabin
 import Spec.Normalize
 import Spec.Encode
 import Model.Container
+import Model.Resolve
 import Spec.Conforms
 import Spec.Choose
 import Spec.Pcf
+import Spec.Resolve
 
 open Lean Wire
 
@@ -185,6 +187,33 @@ def handle (j : Json) : String :=
     match Spec.pcf FUEL (getV j "schema") "" with
     | none => "{\"none\":true}"
     | some t => "{\"ok\":" ++ jsonStr t ++ "}"
+  | "resolve" =>
+    match parseReq j "writer" with
+    | .error e => "{\"perr\":\"" ++ e.name ++ "\"}"
+    | .ok (w, wenv) =>
+      let bytes := unhex (getS j "bytes")
+      match getJ j "reader" with
+      | .null =>
+        (match Binary.readData FUEL wenv (ropts j) w bytes with
+         | .error e => errOut e
+         | .ok (v, rest) => "{\"ok\":" ++ ofVal v ++ ",\"rest\":" ++ toString rest.length ++ "}")
+      | _ =>
+        match Parse.parseTop FUEL (getV j "reader") [] with
+        | .error e => "{\"rperr\":\"" ++ e.name ++ "\"}"
+        | .ok (r, renv) =>
+          match Resolve.readR FUEL wenv renv (ropts j) w r bytes with
+          | .error e => errOut e
+          | .ok (v, rest) => "{\"ok\":" ++ ofVal v ++ ",\"rest\":" ++ toString rest.length ++ "}"
+  | "spec.resolve" =>
+    match parseReq j "writer" with
+    | .error e => "{\"perr\":\"" ++ e.name ++ "\"}"
+    | .ok (w, wenv) =>
+      match Parse.parseTop FUEL (getV j "reader") [] with
+      | .error e => "{\"rperr\":\"" ++ e.name ++ "\"}"
+      | .ok (r, renv) =>
+        match Spec.resolveRead FUEL wenv renv w r (unhex (getS j "bytes")) with
+        | .error e => errOut e
+        | .ok (v, rest) => "{\"ok\":" ++ ofVal v ++ ",\"rest\":" ++ toString rest.length ++ "}"
   | "skip" =>
     match parseReq j with
     | .error e => "{\"perr\":\"" ++ e.name ++ "\"}"
